@@ -17,6 +17,7 @@ import (
 	"reflect"
 	"sort"
 	"strings"
+	"sync"
 	"sync/atomic"
 	"testing"
 	"time"
@@ -198,8 +199,10 @@ func TestC20(t *testing.T) {
 		manyFailingLookups(r)
 		untaggedEmbeddedPointers(r)
 		applyDuringRotation(r)
+		overlappingApplies(r)
+		parsedTwice(r)
 	}
-	r.Require("applies_during_a_rotation", "applies_with_many_failing_lookups", "untagged_embedded_pointers_checked", "applies_to_another_store", "applies_with_a_hanging_field", "dual_unmarshaler_fields", "stores_over_several_structs", "tagged_embedded_fields", "populated_structs", "rejected_shapes", "rejected_arguments", "failing_field_cases", "bytes_fields_mutated", "secret_fields_followed_poll", "shared_secret_fields", "embedded_structs", "untagged_fields_checked", "second_applies")
+	r.Require("overlapping_applies", "structs_parsed_twice", "applies_during_a_rotation", "applies_with_many_failing_lookups", "untagged_embedded_pointers_checked", "applies_to_another_store", "applies_with_a_hanging_field", "dual_unmarshaler_fields", "stores_over_several_structs", "tagged_embedded_fields", "populated_structs", "rejected_shapes", "rejected_arguments", "failing_field_cases", "bytes_fields_mutated", "secret_fields_followed_poll", "shared_secret_fields", "embedded_structs", "untagged_fields_checked", "second_applies")
 	r.Rule("struct types generated at run time: 1-8 fields in random order from {[]byte, string, setec.Secret, value/pointer BinaryUnmarshaler, ',json' struct/map/int} + unsupported {int, []string, *string, map[string]string, bool, empty tag name} + untagged fields of 5 kinds with sentinel contents, optionally one embedded predeclared struct; prefixes {'', a, a/b, dev/prog}; several fields may name the same secret; scripted failing fields (bad JSON, UnmarshalBinary error); via StoreConfig.Structs and via ParseFields+Apply. Distinct = (entry point, sorted set of field kinds, has failing field, prefix)")
 }
 
@@ -1341,4 +1344,142 @@ func applyDuringRotation(r *evid.Run) {
 	<-done
 	r.Eval(1)
 	r.Distinct("apply during a rotation")
+}
+
+// overlappingApplies: several components of a program populate their structs at the same time, from one
+// store with lookups enabled, each naming secrets the store has to fetch first - while the service takes its
+// time. Each field receives the value of the secret IT names.
+func overlappingApplies(r *evid.Run) {
+	for round, n := 0, r.N(25, 250); round < n; round++ {
+		svc := fakesvc.New()
+		svc.Set("o/known", 1, []byte("value-of-known"))
+		for _, nm := range []string{"db-password", "api-token", "signing-key", "webhook-secret"} {
+			svc.Set("o/"+nm, 1, []byte("value-of-"+nm))
+		}
+		svc.Behave = func(q *fakesvc.Req) fakesvc.Behaviour {
+			return fakesvc.Behaviour{Delay: time.Duration(1+round%4) * time.Millisecond}
+		}
+		st, err := setec.NewStore(context.Background(), setec.StoreConfig{Client: svc, Secrets: []string{"o/known"}, AllowLookup: true, PollInterval: -1, Logf: func(string, ...any) {}})
+		if err != nil {
+			panic(err)
+		}
+		var a struct {
+			Token string `setec:"api-token"`
+		}
+		var b struct {
+			Pass []byte `setec:"db-password"`
+		}
+		var c struct {
+			Key  string `setec:"signing-key"`
+			Hook string `setec:"webhook-secret"`
+		}
+		targets := []any{&a, &b, &c}
+		errs := make([]error, len(targets))
+		var wg sync.WaitGroup
+		var gate atomic.Bool
+		for i, tg := range targets {
+			wg.Add(1)
+			go func(i int, tg any) {
+				defer wg.Done()
+				f, err := setec.ParseFields(tg, "o")
+				if err != nil {
+					errs[i] = err
+					return
+				}
+				for !gate.Load() {
+				}
+				if i > 0 && round%2 == 1 {
+					time.Sleep(time.Duration(i) * 300 * time.Microsecond) // start while the first one's request is outstanding
+				}
+				errs[i] = f.Apply(context.Background(), st)
+			}(i, tg)
+		}
+		gate.Store(true)
+		wg.Wait()
+		st.Close()
+		r.Eval(1)
+		r.Count("overlapping_applies", 1)
+		for i, e := range errs {
+			if e != nil {
+				r.Violation("spurious-error", -1, fmt.Sprintf("overlapping Apply #%d: %v", i, e), nil)
+				return
+			}
+		}
+		got := map[string]string{"api-token": a.Token, "db-password": string(b.Pass), "signing-key": c.Key, "webhook-secret": c.Hook}
+		for nm, g := range got {
+			if g != "value-of-"+nm {
+				r.Violation("field-holds-another-secrets-value", -1, fmt.Sprintf("round %d: three components applied their structs to one store at the same time (each naming secrets the store had to fetch): the field tagged %q holds %q", round, nm, g), nil)
+				return
+			}
+		}
+	}
+	r.Distinct("overlapping applies")
+}
+
+// Login is a credential that unmarshals itself.
+type Login struct{ User, Pass string }
+
+func (l *Login) UnmarshalBinary(b []byte) error {
+	u, p, _ := strings.Cut(string(b), ":")
+	l.User, l.Pass = u, p
+	return nil
+}
+
+// parsedTwice: a program parses its configuration struct itself (to re-apply the fields later) AND hands the
+// same struct to NewStore. After the secret rotates and the store polls, re-applying fills the struct the
+// program holds: a pointer-typed self-unmarshalling field points at the new credential, whichever parse
+// allocated it; a pointer the program had put there itself is filled in place.
+func parsedTwice(r *evid.Run) {
+	for _, preset := range []bool{false, true} {
+		for _, order := range []string{"parse-then-store", "store-then-parse"} {
+			svc := fakesvc.New()
+			svc.Set("p/login", 1, []byte("alice:first-password"))
+			var cfg struct {
+				Login *Login `setec:"login"`
+				Plain string `setec:"login"`
+			}
+			var own *Login
+			if preset {
+				own = &Login{User: "preset"}
+				cfg.Login = own
+			}
+			var f *setec.Fields
+			var err error
+			if order == "parse-then-store" {
+				f, err = setec.ParseFields(&cfg, "p")
+			}
+			st, serr := setec.NewStore(context.Background(), setec.StoreConfig{Client: svc, Structs: []setec.Struct{{Value: &cfg, Prefix: "p"}}, PollInterval: -1, Logf: func(string, ...any) {}})
+			if serr != nil {
+				r.Violation("spurious-error", -1, serr.Error(), nil)
+				continue
+			}
+			if order == "store-then-parse" {
+				f, err = setec.ParseFields(&cfg, "p")
+			}
+			if err != nil {
+				r.Violation("spurious-error", -1, err.Error(), nil)
+				st.Close()
+				continue
+			}
+			r.Eval(1)
+			r.Count("structs_parsed_twice", 1)
+			r.Distinct(fmt.Sprintf("struct parsed twice (%s, pointer preset=%t)", order, preset))
+			what := fmt.Sprintf("struct parsed by the program and handed to NewStore (%s; pointer field preset by the program: %t)", order, preset)
+			if cfg.Login == nil || cfg.Login.Pass != "first-password" || cfg.Plain != "alice:first-password" {
+				r.Violation("field-value-wrong", -1, fmt.Sprintf("%s: after NewStore the struct holds Login=%+v Plain=%q", what, cfg.Login, cfg.Plain), nil)
+				st.Close()
+				continue
+			}
+			svc.Set("p/login", 2, []byte("alice:second-password"))
+			st.Refresh(context.Background())
+			if err := f.Apply(context.Background(), st); err != nil {
+				r.Violation("spurious-error", -1, what+": "+err.Error(), nil)
+			} else if cfg.Login == nil || cfg.Login.Pass != "second-password" || cfg.Plain != "alice:second-password" {
+				r.Violation("field-value-wrong", -1, fmt.Sprintf("%s: the secret rotated, the store polled, Apply returned nil - and the struct holds Login=%+v Plain=%q", what, cfg.Login, cfg.Plain), nil)
+			} else if preset && cfg.Login != own {
+				r.Violation("untagged-field-touched", -1, what+": the pointer the program had put into the field was replaced instead of being filled", nil)
+			}
+			st.Close()
+		}
+	}
 }
